@@ -69,7 +69,7 @@ class Conventions(Case):
 
     def inputs(self, mk):
         p = self.params
-        return dict(specs=[shell_spec(mk, "ABCD"[i], l, K, M) for i, (l, K, M) in enumerate(zip(p["ls"], p["Ks"], p["Ms"]))])
+        return dict(specs=cm.specs_from(mk, p))
 
     def code(self, I, mk):
         from gbasis.integrals.electron_repulsion import electron_repulsion_integral
@@ -102,7 +102,7 @@ class PublicS(Case):
 
     def inputs(self, mk):
         p = self.params
-        return dict(specs=[shell_spec(mk, "ABCD"[i], l, K, M) for i, (l, K, M) in enumerate(zip(p["ls"], p["Ks"], p["Ms"]))])
+        return dict(specs=cm.specs_from(mk, p))
 
     def code(self, I, mk):
         from gbasis.integrals.electron_repulsion import electron_repulsion_integral
@@ -172,6 +172,7 @@ def cases(tier, seed=0):
         out.append(Block(ls=[1, 0, 1, 0], Ks=ones, Ms=ones, geom="pairs"))
         out.append(Conventions(ls=[0, 1], types="cc", Ks=[1, 1], Ms=[1, 1]))
         out.append(PublicS(ls=[0, 0], Ks=[2, 1], Ms=[1, 2]))
+        out.append(PublicS(ls=[0, 0, 0], Ks=[2, 2, 1], Ms=[1, 1, 1], twin={"1": 0}, share={"2": 0}))
     else:
         for ls in itertools.product(range(3), repeat=4):
             if max(ls) < 2:
